@@ -127,7 +127,7 @@ NA = {}
 def main():
     props = [json.loads(l)["id"] for l in open(os.path.join(V, "properties.jsonl"))]
     hooks_commits = subprocess.run(["git", "-C", "/repo", "log", "--format=%h %s"], capture_output=True, text=True).stdout.splitlines()
-    hook_shas = [l.split()[0] for l in hooks_commits if "verif hooks" in l]
+    hook_shas = [l.split()[0] for l in hooks_commits if "verif hook" in l]
     checks = []
     for pid in props:
         if pid not in CHECKS:
